@@ -4,9 +4,9 @@ from props import codegen_common as cg
 from props import c01
 
 LEVEL = 'proof'
-MODULES = ['Pysmi.Props.C03', 'Pysmi.Props.C03Time', 'Pysmi.Props.C03Records']
-LAKE_TARGETS = ['Pysmi.Props.C03', 'Pysmi.Props.C03Time', 'Pysmi.Props.C03Records']
-THEOREMS = [
+MODULES = ['Pysmi.Props.C03', 'Pysmi.Props.C03Time', 'Pysmi.Props.C03Records', 'Pysmi.Pins.SkelC03']
+LAKE_TARGETS = ['Pysmi.Props.C03', 'Pysmi.Props.C03Time', 'Pysmi.Props.C03Records', 'Pysmi.Pins.SkelC03']
+THEOREMS = ['Pysmi.Pins.SkelC03.pin_intermediateGenCode', 'Pysmi.Pins.SkelC03.pin_genRevisions', 
     'Pysmi.Symtab.C03_order_is_perm',
     'Pysmi.Symtab.inv_regDecl',
     'Pysmi.Symtab.fixpoint_stable',
